@@ -20,7 +20,8 @@ PROPS = {
         "rules": [r_m1.rule_atom, r_m1.rule_one, r_m1.rule_prov, r_m1.rule_amt, r_m1.rule_clamp, r_m1.rule_endguard,
                   r_m1.rule_complete, r_m1.rule_ctor, r_ticket.rule_ticket, r_ticket.rule_gate, r_live.rule_amt_pub, r_m1.rule_exact, r_fwd.rule_siblings, r_paths.rule_paths, r_fwd.rule_wrap,
                   r_ovf.rule_ovf, r_ovf.rule_ovf_ticket,
-                  r_live.rule_live, r_own.rule_view],
+                  r_live.rule_live, r_own.rule_view,
+                  r_fwd.rule_fwd],
         "explanation": "Decides that the code is an instance of the fetch_add-interval protocol (DESIGN 1.2, M1/M2): for every "
                        "world (5 implementors + 4 adaptor instantiations) x every pull unit (single, one-shot chunk, buffered) "
                        "the unit is evaluated with crate-local callees inlined; rules: ATOM (who may write the counters; no "
@@ -83,7 +84,8 @@ PROPS = {
         "rules": [r_m1.rule_atom, r_m1.rule_endguard, r_m1.rule_complete, r_ticket.rule_sticky, r_state.rule_done,
                   r_ticket.rule_gate, r_state.rule_len, r_paths.rule_paths, r_state.rule_skip,
                   r_ovf.rule_ovf,
-                  r_live.rule_live],
+                  r_live.rule_live,
+                  r_fwd.rule_fwd],
         "explanation": "ATOM.b: no pull stores to the position counter (it only grows); ENDGUARD: Some only under reserved idx < "
                        "LEN on the index itself with LEN immutable; STICKY: the end flag is only ever stored true; DONE-SET: "
                        "whenever the wrapped iterator returned None the flag is set before the pull returns (the exhausted "
@@ -95,7 +97,8 @@ PROPS = {
     "C06": {
         "title": "skip_to_end",
         "rules": [r_state.rule_skip, r_ticket.rule_sticky, r_ticket.rule_gate, r_state.rule_len, r_state.rule_seq,
-                  r_own.rule_own, r_m1.rule_endguard],
+                  r_own.rule_own, r_m1.rule_endguard,
+                  r_fwd.rule_fwd],
         "explanation": "SKIP: early_exit stores a value >= LEN (borrowing sources), reserves >= LEN positions with one RMW "
                        "(consuming sources: OWN.d, the skipped interval is dropped exactly once), or sets the sticky flag "
                        "(wrapper) with every admission gated on it (GATE) so a wrapped counter cannot re-admit; all 7 "
@@ -135,7 +138,8 @@ PROPS = {
     "C09": {
         "title": "progress",
         "rules": [r_live.rule_live, r_live.rule_amt_pub, r_ticket.rule_gate, r_state.rule_done, r_live.rule_unw, r_paths.rule_paths,
-                  r_m1.rule_nonempty, r_m1.rule_endguard, r_m1.rule_complete, r_fwd.rule_each],
+                  r_m1.rule_nonempty, r_m1.rule_endguard, r_m1.rule_complete, r_fwd.rule_each,
+                  r_fwd.rule_fwd],
         "explanation": "LIVE.a: no function reachable from a pull of a known-size source contains a loop on an atomic load or a "
                        "blocking std call (complete decision of 'never waits'); LIVE.b: wait loops of the wrapper re-read "
                        "now-serving and exit on Equal, Less and the end flag; LIVE.c: from every admission every normal path to "
@@ -162,7 +166,8 @@ PROPS = {
     "C11": {
         "title": "try_get_len / has_more",
         "rules": [r_state.rule_len, r_state.rule_done, r_ticket.rule_sticky, r_m1.rule_atom, r_ovf.rule_ovf, r_ovf.rule_zero,
-                  r_fwd.rule_siblings],
+                  r_fwd.rule_siblings,
+                  r_fwd.rule_fwd],
         "explanation": "LEN: try_get_len is LEN - counter under counter < LEN else 0 for the four known-size sources; the "
                        "wrapper answers 0 once the end flag is set, else captured-exact-length - counter; the length is "
                        "captured only when lower == upper; has_more maps None/Some(0)/Some(n) to Maybe/No/Yes(n) and is not "
@@ -175,7 +180,8 @@ PROPS = {
     "C12": {
         "title": "for_each / enumerate_for_each / fold",
         "rules": [r_fwd.rule_each, r_ovf.rule_zero, r_ovf.rule_ovf, r_m1.rule_one, r_ticket.rule_ord, r_fwd.rule_wrap,
-                  r_m1.rule_endguard, r_m1.rule_nonempty, r_m1.rule_complete, r_m1.rule_prov, r_m1.rule_amt],
+                  r_m1.rule_endguard, r_m1.rule_nonempty, r_m1.rule_complete, r_m1.rule_prov, r_m1.rule_amt,
+                  r_fwd.rule_fwd],
         "explanation": "EACH: the three trait defaults pass their arguments unchanged to the algorithms and no implementor "
                        "overrides them; in each algorithm chunk_size > 0 is asserted first (ZERO.a); the single-pull loop and "
                        "the buffered loop exit only on the None of the pull made in that iteration; every Some payload reaches "
